@@ -23,6 +23,13 @@ def make_case(rng, tier, damage, max_damage=4):
         files = [(rng.choice(gen.NAMES), gen.pick_blob(rng, size))]
     else:
         files, _ = gen.tree(rng, B, pl, big=(tier != "quick"))
+        if rng.random() < 0.15:
+            # an entry named like the payload root itself (album/album/...)
+            rel, blob = files[0]
+            clash = "payload/" + rel if rng.random() < 0.5 else "payload"
+            if not any(r == clash or r.startswith(clash + "/") or clash.startswith(r + "/")
+                       for r, _ in files[1:]):
+                files[0] = (clash, blob)
     source = rng.choice(SOURCES)
     if source == "ref-notrail" and (version != 3 or single):
         source = "ref"
